@@ -80,6 +80,30 @@ def menu(basename):
     return m
 
 
+def reduced_menu(basename):
+    """sub-menu for the k=2 product of the quick tier: one specimen per mechanism"""
+    b0 = na.HOT[basename][0]
+    drop_struct = {"T3": [["set", "trafo", 0, "tap_pos", 9], ["set", "trafo", 0, "shift_degree", 30.], ["set", "trafo", 0, "vn_hv_kv", 115.],
+                          ["trafo", 0, 1, {"in_service": False}], ["set", "line", 0, "parallel", 2], ["set", "trafo", 0, "i0_percent", 0.],
+                          ["set", "switch", 0, "z_ohm", 0.5]]}.get(basename, [])
+    out = []
+    n_kind = {}
+    for d in menu(basename):
+        if d[0] in ("load", "sgen", "gen", "shunt", "ext_grid"):
+            if d[1] not in (b0, 0):
+                continue
+            n_kind[d[0]] = n_kind.get(d[0], 0) + 1
+            # first specimen + the out-of-service / sign / slack-bus variants
+            keep = n_kind[d[0]] == 1 or d[-1] is False or (d[0] == "load" and d[2] < 0) or (d[0] == "gen" and (d[1] == 0 or d[4] == "tight")) \
+                or (d[0] == "shunt" and d[5] == 2) or (d[0] == "ext_grid" and d[3] != 0. and d[-1])
+            if not keep:
+                continue
+        elif d in drop_struct:
+            continue
+        out.append(d)
+    return out
+
+
 def compatible(devs):
     """keep cases inside the scope: at most one tap-changer-type deviation etc. is ensured by netalpha.field_of"""
     return True
